@@ -59,6 +59,11 @@ fn add_int(n: &mut Needles, what: &str, v: u64) {
 }
 
 fn add_bytes(n: &mut Needles, what: &str, b: &[u8]) {
+    // the empty hash (all-zero sibling of a sparse tree) and other constant fills identify nothing and
+    // legitimately appear in public fields
+    if b.iter().all(|x| *x == b[0]) {
+        return;
+    }
     // hex of the whole value, both byte orders, as substrings (>= 8 bytes)
     if b.len() >= 8 {
         n.substrings.push((hex::encode(b), format!("{what} hex")));
